@@ -161,7 +161,7 @@ Definition exempt_readers : list (string * list string) := [
   ("ri_trace.current_Ks", ["gravity.c"; "integrator_trace.c"; "particle.c"]);
   ("ri_trace.current_C", ["integrator_trace.c"]);
   ("ri_trace.force_accept", ["integrator_trace.c"]);
-  ("ri_bs.nbody_ode", ["integrator.c"; "integrator_bs.c"])   (* integrator.c (6a5def5/01f8c0c): part1 frees a stale BS N-body ode when integrator != BS; a restored simulation has NULL and skips it, afterwards both have NULL; odes are not persisted (ExOde), no persisted quantity depends on it *);
+  ("ri_bs.nbody_ode", ["integrator.c"; "integrator_bs.c"; "rebound.c"])   (* rebound.c (27d0f02): reb_check_exit subtracts the BS N-body ode from N_odes to count USER odes when N = 0; original (N_odes 1, ode present) and restored (N_odes 0, NULL) both get 0 *)   (* integrator.c (6a5def5/01f8c0c): part1 frees a stale BS N-body ode when integrator != BS; a restored simulation has NULL and skips it, afterwards both have NULL; odes are not persisted (ExOde), no persisted quantity depends on it *);
   ("ri_bs.sequence", ["integrator_bs.c"]);
   ("ri_bs.cost_per_step", ["integrator_bs.c"]);
   ("ri_bs.cost_per_time_unit", ["integrator_bs.c"]);
